@@ -77,9 +77,18 @@ impl ConnView {
 pub struct WireView {
     pub pkts: Vec<WirePkt>,
     pub conns: Vec<ConnView>,
+    /// (time, sender, receiver, sender's send id) of every "a transmitted MTU probe timed out and was
+    /// taken back" report of the library (hook)
+    pub probe_expiries: Vec<(Us, SocketAddr, SocketAddr, u16)>,
 }
 
 impl WireView {
+    /// Did the sender `src` (towards `dst`, sending under connection id `id`) report at instant `t`
+    /// that its MTU probe timed out and was taken back?
+    pub fn probe_expired_at(&self, src: SocketAddr, dst: SocketAddr, id: u16, t: Us) -> bool {
+        self.probe_expiries.iter().any(|(pt, s, d, i)| *pt == t && *s == src && *d == dst && *i == id)
+    }
+
     pub fn build(events: &[Event]) -> WireView {
         Self::build_opts(events, true)
     }
@@ -176,7 +185,14 @@ impl WireView {
                 _ => {}
             }
         }
-        WireView { pkts, conns }
+        let probe_expiries = events
+            .iter()
+            .filter_map(|e| match &e.ev {
+                Ev::Hook(librqbit_utp::verif::VerifEvent::MtuProbeExpired { id, .. }) => Some((e.t, id.local, id.remote, id.conn_id_send)),
+                _ => None,
+            })
+            .collect();
+        WireView { pkts, conns, probe_expiries }
     }
 
     /// Hash of the normalised trace (types, relative sequence numbers, sizes, fates): two
